@@ -453,6 +453,14 @@ def gen_file(rng, kinds=None):
         # ASCII files with exactly 13 / 21 columns are mis-detected on an unpatched tree (C01's finding, not ours)
         if spec.kind == "ascii" and len(spec.cols) in (13, 21):
             continue
+        if spec.kind == "ascii" and "pdg" in spec.cols[1:] and len(spec.cols) > 2 and rng.random() < 0.5:
+            # an ASCII file without PDG column: every particle has an unset PDG id; the PDG-needing filters
+            # (species, class filters, remove_photons) must drop such particles on both paths, none may raise
+            j = spec.cols.index("pdg")
+            cols = [c for c in spec.cols if c != "pdg"]
+            if len(cols) not in (13, 21):
+                spec = rmodel.FileSpec("ascii", cols, [[row[:j] + row[j + 1:] for row in ev] for ev in spec.events],
+                                       labels=spec.labels, impacts=spec.impacts, tab_headers=spec.tab_headers)
         return spec
 
 
@@ -520,7 +528,8 @@ def obj_events(rng):
         ev, sp = [], []
         for _ in range(m):
             s = pmodel.gen_spec(rng, 0.08)
-            s.setdefault("pdg", rng.choice(pmodel.VALID_PDGS))
+            if rng.random() < 0.15:
+                s.pop("pdg", None)  # unset PDG id: PDG-needing filters must drop the particle, on both paths
             p = pmodel.make_particle(s)
             ids[id(p)] = n
             n += 1
@@ -578,7 +587,8 @@ def correspond(ctx):
                 "0-4 particles, one 10+ event) x events= none / k / (a,b) x ordered dictionaries of 1-4 distinct keys out of all 27 "
                 "filter names (keys a class does not support included), True/False switches, cut limits taken from the particles' "
                 "own values or midway between them, None limits, swapped limits; 12% malformed (unknown key, spacetime_cut not a "
-                "list, invalid argument); the same for ParticleObjectStorer on particle lists. non-trivial = constructor path "
+                "list, invalid argument); ASCII files without a PDG column and particle lists with unset PDG ids x PDG-needing filters "
+                "(both paths must drop such particles, none may raise); the same for ParticleObjectStorer on particle lists. non-trivial = constructor path "
                 "succeeds, >=2 filters or events= given, and at least one particle removed and one kept, or an event emptied")
     ctx.assumptions += [
         "C05: the main theorems assume that the plain load succeeds and is Booked (2-D counts, one row per held event, second "
@@ -586,7 +596,8 @@ def correspond(ctx):
         "every generated file (`booked=1`), not proved from the file grammar. Nothing is proved about the string layer `analyse`; "
         "the observations of every generated line are compared with the kind of line the grammar wrote (`lines` op).",
         "C05: filter semantics enter through Props/C03 (`applyCall = keepSpec pred` for admissible arguments; PDG ids present for "
-        "species filters, |z| < t for the space-time rapidity cut); the particle view of a line (charge, pT, class flags …) is "
+        "species filters no longer required since /repo 9f9a2e0 — ASCII files without PDG column and particle lists with unset PDG ids "
+        "are generated and judged: both paths must drop such particles; |z| < t for the space-time rapidity cut); the particle view of a line (charge, pT, class flags …) is "
         "supplied by the harness from the real Particle.",
         "C05: dictionary values are encoded by the kind of argument the receiving filter takes (switch / int container / window / "
         "rapidity argument / threshold / [dim, window]); Python dict = association list with distinct keys.",
@@ -658,6 +669,8 @@ def correspond(ctx):
                  sample=dict(cls=cls, kind=spec.kind, events=sel, filters=jdict(d), ctor_code=r_ctor, ctor_model=o_ctor,
                              methods_code=r_meth, methods_model=o_meth, cmp_model=o_cmp))
         ctx.count(f"file/{spec.kind}/{tag}/" + ("sel" if sel is not None else "all") + ("/err" if r_ctor.startswith("err") else ""))
+        if pdg_filters_on(d) and "pdg" not in spec.cols:
+            ctx.count("unset-pdg/file+pdg-filter" + ("/err" if r_ctor.startswith("err") else ""))
         case = dict(cls=cls, spec=spec_json(spec), events=jval(sel), filters=jdict(d))
         if norm_err(r_ctor) != norm_err(o_ctor):
             ctx.brk("correspondence-broken", f"{cls}(file, events={sel}, filters={jdict(d)}): code `{r_ctor}` vs model `{o_ctor}`", case=case)
@@ -689,6 +702,8 @@ def correspond(ctx):
         r_m, _ = real_obj_methods(evs, ids, d)
         ctx.case(("obj", repr(specs), repr(jdict(d))), r_c.startswith("ok") and len(d) >= 2)
         ctx.count(f"obj/{tag}" + ("/err" if r_c.startswith("err") else ""))
+        if pdg_filters_on(d) and any(_nan_pdg(p) for ev in evs for p in ev):
+            ctx.count("unset-pdg/obj+pdg-filter" + ("/err" if r_c.startswith("err") else ""))
         case = dict(cls="obj", events=specs, filters=jdict(d))
         if norm_err(r_c) != norm_err(o_c):
             ctx.brk("correspondence-broken", f"ParticleObjectStorer(list, filters={jdict(d)}): code `{r_c}` vs model `{o_c}`", case=case)
@@ -778,6 +793,15 @@ def gen_noop_arg(k):
     return (0.0, 1.0)
 
 
+def pdg_filters_on(d):
+    return [k for k, v in d.items() if k in pmodel.NEEDS_PDG and v is not False]
+
+
+def _nan_pdg(p):
+    v = p.pdg
+    return isinstance(v, float) and v != v
+
+
 def oracle_file(cls, spec, sel, d):
     """None or (key, what): X(file, events=sel, filters=d)  vs  X(file, events=sel).k1(v1)…"""
     k2l = key2line(spec)
@@ -802,11 +826,24 @@ def oracle_file(cls, spec, sel, d):
                 return (f"{cls}:spacetime-value-accepted", f"{cls}(file, filters={jdict(d)}) accepted a non-sequence spacetime_cut value")
             return None
         if r_m.startswith("err") and r_c.startswith("err"):
-            return None  # inadmissible argument / data: both raise
+            # inadmissible argument / data: both raise -- but never because of a particle without PDG id
+            on = pdg_filters_on(d)
+            if on and o_p is not None and any(_nan_pdg(p) for ev in o_p.particle_objects_list() for p in ev):
+                d0 = {k: v for k, v in d.items() if k not in on}
+                r0 = load_real(spec, filters=d0, **kw)[0] if d0 else plain
+                if not r0.startswith("err"):
+                    return (f"{cls}:raises-on-unset-pdg", f"{cls} events={sel} filters={jdict(d)}: both paths raise ({r_c} / {r_m}) on "
+                                                          f"particles without PDG id; without {on} nothing raises")
+            return None
         if "spacetime_cut" in d and isinstance(d["spacetime_cut"], tuple) and r_c.startswith("err") and not r_m.startswith("err"):
             return None  # documented: the constructor wants a list
         if r_m.startswith("err") != r_c.startswith("err"):
             return (f"{cls}:one-path-raises", f"{cls} events={sel} filters={jdict(d)}: constructor `{r_c}` but methods `{r_m}`")
+        if pdg_filters_on(d):
+            for path, o in (("constructor", o_c), ("methods", o_m)):
+                if any(_nan_pdg(p) for ev in o.particle_objects_list() for p in ev):
+                    return (f"{cls}:unset-pdg-survives", f"{cls} events={sel} filters={jdict(d)}: the {path} path keeps a particle "
+                                                         f"without PDG id although {pdg_filters_on(d)} need one")
         ev_c = nonempty(obs_events(spec, o_c, k2l))
         ev_m = nonempty(obs_events(spec, o_m, k2l))
         if ev_c != ev_m:
@@ -841,7 +878,16 @@ def oracle_obj(evs, ids, d):
             return ("obj:spacetime-value-accepted", "non-sequence spacetime_cut value accepted")
         return None
     if r_c.startswith("err") and r_m.startswith("err"):
+        on = pdg_filters_on(d)
+        if on and any(_nan_pdg(p) for ev in evs for p in ev):
+            d0 = {k: v for k, v in d.items() if k not in on}
+            if not real_obj_ctor(evs, ids, d0)[0].startswith("err"):
+                return ("obj:raises-on-unset-pdg", f"ParticleObjectStorer filters={jdict(d)}: both paths raise ({r_c} / {r_m}) on "
+                                                   f"particles without PDG id; without {on} nothing raises")
         return None
+    if s_c is not None and pdg_filters_on(d) and any(_nan_pdg(p) for ev in s_c.particle_objects_list() for p in ev):
+        return ("obj:unset-pdg-survives", f"ParticleObjectStorer(list, filters={jdict(d)}) keeps a particle without PDG id "
+                                          f"although {pdg_filters_on(d)} need one")
     if s_c is not None:
         ev_c0 = nonempty([[ids[id(p)] for p in ev] for ev in s_c.particle_objects_list()])
         cc0 = counts_of_nonempty(s_c)
